@@ -1835,8 +1835,8 @@ class TimePoint:
                 self._day_of_year += days_in_last_year
                 self._year -= 1
             while self._day_of_year > get_days_in_year(self._year):
-                days_in_next_year = get_days_in_year(self._year + 1)
-                self._day_of_year -= days_in_next_year
+                days_in_this_year = get_days_in_year(self._year)
+                self._day_of_year -= days_in_this_year
                 self._year += 1
         if self._week_of_year is not None:
             while self._week_of_year < 1:
